@@ -12,7 +12,8 @@ CHECK = {'level': 'exploration',
          'all 1-byte and 2-byte secrets x all 2<=t<=n<=6 x all subsets; malformed share lists (fewer than two, short, '
          'unequal length, duplicate x) rejected, well-formed ones equal reference Lagrange interpolation; 16..64 byte '
          'secrets with n up to 255. K (real Core): for every (n,t) <= (4,3) every sequence of share submissions '
-         '(valid shares, repeats, a corrupted share, a foreign share) to unseal, rekey and generate-root: the '
+         '(valid shares, repeats, a corrupted share, a foreign share, a key of impossible length) to unseal, rekey, '
+         'share-based root rotation, generate-root and the unseal endpoint of a namespace with its own (n,t) Shamir seal: the '
          'operation completes exactly when t distinct shares have been supplied and all of them are genuine; progress '
          'counts distinct shares only. distinct non-trivial = distinct (section, shuffle, n, t, secret) / (operation, '
          'n, t, submission sequence)',
